@@ -14,12 +14,16 @@ MANIFEST = dict(
              "accepted reply is final, that attempts with nothing outstanding are refused, that a rejected send may be retried and "
              "that releasing an unanswered request yields exactly one default reply while the transport is linked.  Every "
              "transition of the model's control skeleton is replayed into mpt_reply_deferrable()/mpt_reply_set()/"
-             "mpt_context_reply() with a scripted send callback and into the real id codec; seeded call histories (ids 0, 2^k-1, "
-             "2^k, 2^k+1 and random x widths 0..12; contexts with id widths up to 255 and 8 handles) recorded from the real code "
-             "are validated by TLC against the same specification including its action properties.",
-        note="Trusted: TLC, drv/reply.c (projection only), bounded model.  The stream/connection side (mptio stream_input.c, "
-             "connection_dispatch.c, output_remote.c) is covered only through the functions it shares "
-             "(mpt_reply_deferrable, mpt_reply_set, mpt_message_id2buf/buf2id), not through sockets.",
+             "mpt_context_reply() with a scripted send callback, into the real id codec, and -- over a socket pair with COBS "
+             "framing -- into the reply context of a stream input (mpt_stream_input) and of a stream backed connection "
+             "(mpt_connection_dispatch, including replies deferred past later requests); seeded call histories (ids 0, 2^k-1, "
+             "2^k, 2^k+1 and random x widths 0..12; contexts with id widths up to 255 and 8 handles; stream/connection "
+             "request sequences) recorded from the real code are validated by TLC against the same specification "
+             "including its action properties.",
+        note="Trusted: TLC, drv/reply.c and drv/reply_stream.c (projection only; the peer end of the socket pair uses the "
+             "library's own stream codec), bounded model.  On the socket side the transport always accepts; datagram "
+             "connections, output_remote.c and stream_sync.c are covered only through the functions they share "
+             "(mpt_reply_deferrable, mpt_reply_set, mpt_message_id2buf/buf2id).",
         technique="TLA+ spec + TLC exhaustive check; TLC-generated behaviours replayed into the C code; TLC trace validation of recorded runs",
         design="5/C12")
 CFG = {
@@ -180,9 +184,22 @@ def gen_stream_histories(ck, n, steps):
     behs = []
     for _ in range(n):
         mx = rng.choice([1, 2, 3, 4, 5, 8])
-        beh = [{"a": "init", "arg": {"mode": "stream", "max": mx}}]
+        via = rng.choice(["input", "conn"])
+        beh = [{"a": "init", "arg": {"mode": "stream", "max": mx, "via": via}}]
         for _ in range(steps):
-            op = rng.choice(["srequest", "srequest", "srequest", "slate", "sanswer"])
+            op = rng.choice(["srequest", "srequest", "srequest", "slate"] +
+                            (["sanswer"] if via == "input" else ["sdefer", "sdefer", "sdreply", "sdreply"]))
+            if op == "sdefer":
+                idb = [rng.randrange(128)] + [rng.randrange(256) for _ in range(mx - 1)]
+                if not any(idb):
+                    idb[-1] = 1
+                beh.append({"a": "srequest", "arg": {"id": idb, "payload": [rng.randrange(256) for _ in range(3)],
+                                                    "act": "defer", "h": rng.randrange(1, 9), "data": [], "hret": 0}})
+                continue
+            if op == "sdreply":
+                beh.append({"a": "sdreply", "arg": {"h": rng.randrange(1, 9),
+                                                   "data": [rng.randrange(256) for _ in range(rng.choice([0, 1, 4, 20]))]}})
+                continue
             if op == "srequest":
                 if rng.random() < 0.15:
                     idb = [0] * mx
@@ -191,7 +208,7 @@ def gen_stream_histories(ck, n, steps):
                 pay = [rng.randrange(256) for _ in range(rng.choice([0, 1, 3, 8, 30]))]
                 data = [rng.randrange(256) for _ in range(rng.choice([0, 1, 2, 3, 9, 40]))]
                 beh.append({"a": "srequest", "arg": {"id": idb, "payload": pay, "act": rng.choice(["none", "reply", "reply2"]),
-                                                    "data": data, "hret": rng.choice([0, 0, 1, 4, -1, -3, -128])}})
+                                                    "data": data, "hret": rng.choice([0, 0, 0, -1, -3, -128])}})
             elif op == "slate":
                 beh.append({"a": "slate", "arg": {"data": [rng.randrange(256) for _ in range(rng.choice([0, 2, 5]))]}})
             else:
